@@ -120,7 +120,7 @@ __CPROVER_loop_invariant(it.m == &map1 && it.pos <= map1.n && D_SAME_LV(melem, g
 __CPROVER_loop_invariant(D_SAME_LV(overlap, g_overlap))
 __CPROVER_decreases(map1.n - it.pos)
 //@end
-//@harness h_Operator_getMatrixElement_v enforce=Operator_getMatrixElement_v props=C05,C17 reach=6 timeout=240
+//@harness h_Operator_getMatrixElement_v enforce=Operator_getMatrixElement_v props=C05,C17 reach=6 timeout=240 min_obl=686
 void h_Operator_getMatrixElement_v(void)
 {
   struct Operator *o; RVec *b, *k; VecFS *s;
